@@ -162,6 +162,9 @@ def m_part(prop, tier, seed):
         n = 32 if tier == "quick" else 640
     if prop in ("C14", "C15"):
         n = 24 if tier == "quick" else 480
+    if prop == "C14":
+        # the check-then-insert race of the detector shows in about 3 % of the executions
+        n = 64 if tier == "quick" else 640
     # different properties that share a scenario explore different executions of it
     res = run_batch(prop, SCENARIOS[prop], n, seed + {"C02": 7, "C06": 13, "C15": 29}.get(prop, 0))
     viol, stats = summarize(prop, res)
